@@ -568,3 +568,76 @@ func paramObjs(info *types.Info, fd *ast.FuncDecl) []types.Object {
 	}
 	return out
 }
+
+// ---------------------------------------------------------------------------
+// VALUES-ONLY: a qualifier clause is matched against qualifier values.
+
+// ValuesOnly decides VALUES-ONLY on gts.Qualifier. An entry of Props is a
+// []string whose element 0 is the qualifier's name and whose other elements
+// are its values; "some value of any qualifier" must not range over the name.
+func ValuesOnly(p *core.Prog, r *core.Report) {
+	r.Rule("VALUES-ONLY", "in gts.Qualifier every string handed to re.MatchString is a qualifier value: the loop variable of a range over Props.Get(name), over entry[1:] of a Props entry, or the Value of an Item; ranging over a whole Props entry also tests element 0, the qualifier's name", 2)
+	info := p.Info(core.PkgGts)
+	fd := p.FuncDecl(core.PkgGts, "Qualifier")
+	if fd == nil || fd.Body == nil {
+		r.Und("VALUES-ONLY", "gts.Qualifier|anchor", "-", "anchor-unresolved")
+		return
+	}
+	r.Fn("gts.Qualifier")
+	asg := core.Assigns(info, fd.Body)
+	isEntry := func(t types.Type) bool { // []string
+		sl, ok := t.Underlying().(*types.Slice)
+		if !ok {
+			return false
+		}
+		b, ok := sl.Elem().Underlying().(*types.Basic)
+		return ok && b.Kind() == types.String
+	}
+	n := 0
+	for _, c := range core.Calls(fd.Body) {
+		if !core.IsCallTo(info, c, "regexp.Regexp.MatchString") || len(c.Args) != 1 {
+			continue
+		}
+		n++
+		key := fmt.Sprintf("gts.Qualifier|match#%d", n)
+		arg := ast.Unparen(c.Args[0])
+		if se, ok := arg.(*ast.SelectorExpr); ok && se.Sel.Name == "Value" {
+			r.Ok("VALUES-ONLY", key, p.Pos(c.Pos()), "the Value of an Item")
+			continue
+		}
+		o := core.ObjOf(info, arg)
+		var rs *ast.RangeStmt
+		if o != nil {
+			for _, a := range asg[o] {
+				if x, ok := a.Node.(*ast.RangeStmt); ok && a.Idx == 1 {
+					rs = x
+				}
+			}
+		}
+		if rs == nil {
+			r.Und("VALUES-ONLY", key, p.Pos(c.Pos()), "the matched string is not the element of a range loop")
+			continue
+		}
+		src := ast.Unparen(core.Origin(info, asg, rs.X))
+		switch x := src.(type) {
+		case *ast.CallExpr:
+			if fn := core.Callee(info, x); fn != nil && fn.Name() == "Get" && strings.HasSuffix(core.FuncID(fn), "Props.Get") {
+				r.Ok("VALUES-ONLY", key, p.Pos(c.Pos()), "ranges over Props.Get(name): the values")
+				continue
+			}
+		case *ast.SliceExpr:
+			if lo, ok := core.ConstInt(info, x.Low); ok && x.Low != nil && lo == 1 && x.High == nil {
+				r.Ok("VALUES-ONLY", key, p.Pos(c.Pos()), "ranges over entry[1:]: the values")
+				continue
+			}
+		}
+		if tv, ok := info.Types[rs.X]; ok && tv.Type != nil && isEntry(tv.Type) {
+			r.Bad("VALUES-ONLY", key, p.Pos(rs.Pos()), "the clause ranges over a whole Props entry `"+types.ExprString(rs.X)+"`, whose element 0 is the qualifier's name: `/=^gene$` accepts a feature that merely carries a /gene qualifier, whatever its value")
+			continue
+		}
+		r.Und("VALUES-ONLY", key, p.Pos(rs.Pos()), "cannot tell whether `"+types.ExprString(rs.X)+"` holds values only")
+	}
+	if n == 0 {
+		r.Und("VALUES-ONLY", "gts.Qualifier|match", p.Pos(fd.Pos()), "no re.MatchString call found")
+	}
+}
